@@ -49,11 +49,11 @@ func gen(g *kernel.Rng, seed uint64, tier string) *kernel.Plan {
 		dup := int64(g.Pick(4, 1))
 		if !connected && g.Bool(0.5) {
 			connected = true
-			p.Ops = append(p.Ops, kernel.Op{K: "connect", T: 0, N: []int64{4, mode, dup, int64(g.Range(1, 20)), int64(g.U32())}})
+			p.Ops = append(p.Ops, kernel.Op{K: "connect", T: 0, N: []int64{4, mode, dup, int64(g.Range(1, 20)), int64(g.U32()), int64(g.Pick(4, 1))}})
 			continue
 		}
-		p.Ops = append(p.Ops, kernel.Op{K: "createStream", T: 0, N: []int64{tid, mode, dup}})
-		tid += 4 * int64(g.Range(1, 3))
+		p.Ops = append(p.Ops, kernel.Op{K: "createStream", T: 0, N: []int64{tid, mode, dup, int64(g.Pick(5, 1))}})
+		tid += 4 * g.OneOf(1, 1, 2, 3, 15, 16, 31, 32, 63, 64, 255, 256, 1000)
 	}
 	if g.Bool(0.25) {
 		// the transport fails at some write call of W (accepting nothing, a few bytes, or everything)
@@ -87,6 +87,7 @@ type pend struct {
 	tid  amf0.Number
 	mode int64
 	dup  int64
+	scs  int64 // the peer announces a new chunk size right before this response
 }
 
 // porcupine model: the set of outstanding transaction ids.
@@ -162,7 +163,7 @@ func run(p *kernel.Plan) (res *kernel.Result) {
 	wfailed := false  // touched by task Aw only
 	var reqs []reqRec // written by task Aw only
 	var decs []decRec // written by task Ar only
-	var answered, dupSent int
+	var answered, dupSent, scsSent int
 	// packets are built here, outside the tasks (building uses fmt; see Task.Evf)
 	pkts := make([]rtmp.Packet, len(p.Ops))
 	for i, op := range p.Ops {
@@ -222,6 +223,9 @@ func run(p *kernel.Plan) (res *kernel.Result) {
 					return
 				}
 				d.step0 = s.S.Now()
+				if m.MessageType == rtmp.MessageTypeSetChunkSize {
+					continue // the peer's chunk size announcement (applied by ReadMessage)
+				}
 				if tid, ok := peekTid(m.Payload); ok {
 					d.tid, d.hasTid = tid, true
 				}
@@ -244,6 +248,14 @@ func run(p *kernel.Plan) (res *kernel.Result) {
 				r := rtmp.NewCreateStreamResPacket(q.tid)
 				r.StreamID = 1
 				pkt = r
+			}
+			if q.scs != 0 {
+				sc := rtmp.NewSetChunkSize()
+				sc.ChunkSize = uint32(200 + 100*q.scs + int64(answered))
+				if err := e.Proto.WritePacket(sc, 0); err != nil {
+					return false
+				}
+				scsSent++
 			}
 			n := 1 + int(q.dup)
 			for k := 0; k < n; k++ {
@@ -296,6 +308,11 @@ func run(p *kernel.Plan) (res *kernel.Result) {
 			}
 			if k < len(how) {
 				q.mode, q.dup = how[k].N[1], how[k].N[2]
+				if how[k].K == "connect" && len(how[k].N) > 5 {
+					q.scs = how[k].N[5]
+				} else if how[k].K == "createStream" && len(how[k].N) > 3 {
+					q.scs = how[k].N[3]
+				}
 			}
 			k++
 			// requests delayed "until the next request" are released now
@@ -314,7 +331,14 @@ func run(p *kernel.Plan) (res *kernel.Result) {
 	// A's writer half-closes when done (NoHalfClose only stops B's idle writer
 	// from ending the stream P still answers on)
 	s.ExtraTasks = nil
+	// preemption points inserted into the scratch copy of package rtmp
+	installHook(func(point string) {
+		if t := s.S.Cur(); t != nil {
+			t.Yield(point)
+		}
+	})
 	s.Run2(func(e *rtmpx.End) bool { return e == s.A })
+	installHook(nil)
 	s.ApplyStats(res)
 	if raceEngine {
 		res.Nontrivial = len(p.Ops) > 0
@@ -428,10 +452,14 @@ func run(p *kernel.Plan) (res *kernel.Result) {
 		res.Stat("porcupine_inconclusive", 1)
 	}
 	res.Stat("porcupine_histories_checked", 1)
+	if preemptionPoints {
+		res.Stat("runs_with_inserted_preemption_points", 1)
+	}
 	res.Stat("requests", int64(len(reqs)))
 	res.Stat("responses_decoded", int64(len(decs)))
 	res.Stat("responses_decoded_inside_write_call", int64(inWrite))
 	res.Stat("duplicate_responses", int64(dupSent))
+	res.Stat("peer_set_chunk_size_before_response", int64(scsSent))
 	res.Nontrivial = len(reqs) > 0
 	res.State = uint64(len(reqs))<<16 | uint64(inWrite)<<8 | uint64(dupSent)
 	return res
